@@ -70,11 +70,11 @@ fn plan(prop: &str) -> Plan {
         "C02" => Plan { probe_all: true, flip_owned_pair: true, iters: 2, ..base },
         "C03" | "C04" => Plan { forks: true, iters: 1, ..base },
         "C05" => Plan { kinds: ALL7, bad_ctor_args: true, forks: true, iters: 1, ..base },
-        "C06" => Plan { kinds: &[(Kind::Lru, 1)], ..base },
-        "C07" => Plan { kinds: &[(Kind::Slru, 1)], ..base },
+        "C06" => Plan { kinds: &[(Kind::Lru, 1)], forks: true, ..base },
+        "C07" => Plan { kinds: &[(Kind::Slru, 1)], forks: true, ..base },
         "C08" => Plan { kinds: &[(Kind::TwoQ, 1)], ..base },
         "C09" => Plan { kinds: &[(Kind::Arc, 1)], ..base },
-        "C10" => Plan { kinds: &[(Kind::Wtlfu, 1)], ..base },
+        "C10" => Plan { kinds: &[(Kind::Wtlfu, 1)], forks: true, ..base },
         "C11" => Plan { kinds: &[(Kind::Tlfu, 1)], forks: true, ..base },
         "C12" => base,
         "C13" => Plan { observers: true, twin_observer_pair: true, iters: 1, ..base },
@@ -215,7 +215,7 @@ pub fn gen_header(kind: Kind, r: &mut Rng, p_random_state: bool, cb: u8, bad_arg
                 }
             };
             h.sizes = vec![cap(r), cap(r)];
-            h.ctor = if random_state { r.below(3) as u8 } else { r.below(2) as u8 };
+            h.ctor = if random_state { r.below(4) as u8 } else { r.below(3) as u8 };
             if zero_size {
                 let i = r.below(2) as usize;
                 h.sizes[i] = 0;
@@ -443,7 +443,7 @@ pub fn c05_grid() -> &'static Vec<Header> {
             }
         }
         // SegmentedCache
-        for (rs, ctors) in [(false, 2u8), (true, 3u8)] {
+        for (rs, ctors) in [(false, 3u8), (true, 4u8)] {
             for ctor in 0..ctors {
                 for cp in 0..4usize {
                     for cq in 0..4usize {
